@@ -72,7 +72,7 @@ Definition bcast_all {A} (f : A -> A -> bool) (l1 l2 : list A) : tri :=
 (* ------------------------------------------------------------ weightings *)
 Definition w_expo (w : weighting T) : expo T :=
   match w with
-  | WConst _ _ e => e | WArray _ _ e => e
+  | WConst _ _ e => e | WArray _ _ e => e | WMatrix _ e => e
   | WInner _ _ => EFin (of_Z 2)
   | WNorm _ _ => EFin (of_Z 1) | WDist _ _ => EFin (of_Z 1)
   end.
@@ -91,6 +91,7 @@ Definition w_eqb (a b : weighting T) : bool :=
   | WInner _ f, WInner _ g => Z.eqb f g
   | WNorm _ f, WNorm _ g => Z.eqb f g
   | WDist _ f, WDist _ g => Z.eqb f g
+  | WMatrix i _, WMatrix j _ => Z.eqb i j      (* self.matrix is getattr(other, 'matrix', None) *)
   | _, _ => false
   end.
 
@@ -206,6 +207,7 @@ Definition w_key (w : weighting T) : key T :=
   | WInner _ f => KTup [w_base_key w; KFun f]
   | WNorm _ f => KTup [w_base_key w; KFun f]
   | WDist _ f => KTup [w_base_key w; KFun f]
+  | WMatrix i _ => KTup [w_base_key w; KBytes i]
   end.
 
 Definition shape_key (s : list Z) : key T := KTup (map KZ s).
